@@ -74,19 +74,19 @@ func (r *Report) Violate(v Violation) {
 // CaseWriter writes chunked Coq case files: one `Definition cases_k` per chunk and one
 // `Definition M_k := Eval vm_compute in mismatches ok cases_k. Print M_k.`
 type CaseWriter struct {
-	dir, name   string
-	header      string // Require lines and the definition of `ok`
-	elemType    string
-	chunk       []string
-	chunkSize   int
-	chunks      int
-	total       int
-	sb          strings.Builder
-	Labels      []string // label per case, for replay
-	Files       []string // case files written so far (a new file every fileChunks chunks, evaluated in parallel)
-	inFile      int
-	fileChunks  int
-	closed      bool
+	dir, name  string
+	header     string // Require lines and the definition of `ok`
+	elemType   string
+	chunk      []string
+	chunkSize  int
+	chunks     int
+	total      int
+	sb         strings.Builder
+	Labels     []string // label per case, for replay
+	Files      []string // case files written so far (a new file every fileChunks chunks, evaluated in parallel)
+	inFile     int
+	fileChunks int
+	closed     bool
 }
 
 func NewCaseWriter(dir, name, header, elemType string) *CaseWriter {
@@ -127,12 +127,23 @@ func (w *CaseWriter) writeFile() {
 		return
 	}
 	p := filepath.Join(w.dir, fmt.Sprintf("%s_%03d.v", w.name, len(w.Files)))
-	_ = os.WriteFile(p, []byte(w.sb.String()), 0o644)
+	body := w.sb.String()
+	// interned byte strings: definitions go between the Require lines and the definition of ok
+	text := body
+	if i := strings.Index(body, "Definition "); i >= 0 {
+		text = body[:i] + internDefs(body) + body[i:]
+	}
+	_ = os.WriteFile(p, []byte(text), 0o644)
 	w.Files = append(w.Files, p)
 	w.sb.Reset()
 	w.sb.WriteString(w.header)
 	w.sb.WriteString("\n")
 	w.inFile = 0
+}
+
+// SetChunk sets the number of cases per Coq definition (smaller for big terms) and chunks per file.
+func (w *CaseWriter) SetChunk(cases, chunksPerFile int) {
+	w.chunkSize, w.fileChunks = cases, chunksPerFile
 }
 
 func (w *CaseWriter) Close() (string, error) {
@@ -153,6 +164,7 @@ type CaseSet struct {
 	Files  []string `json:"files"`
 	Labels string   `json:"labels"`
 	Cases  int      `json:"cases"`
+	Chunk  int      `json:"chunk"`
 }
 
 // AddCases closes a case writer and records its files in the report.
@@ -200,7 +212,7 @@ func main() {
 		if !w.closed {
 			_, _ = w.Close()
 		}
-		rep.CaseSets = append(rep.CaseSets, CaseSet{Name: w.name, Files: w.Files, Labels: filepath.Join(w.dir, w.name+".labels.json"), Cases: w.total})
+		rep.CaseSets = append(rep.CaseSets, CaseSet{Name: w.name, Files: w.Files, Labels: filepath.Join(w.dir, w.name+".labels.json"), Cases: w.total, Chunk: w.chunkSize})
 		rep.CaseFiles = append(rep.CaseFiles, w.Files...)
 		rep.CoqCases += w.total
 	}
